@@ -110,19 +110,31 @@ fn kept_intact(arch: &Path, a: &Arch, d: &[u32], sc: &crate::scratch::Scratch) -
     let raw = fmt06::read_archive(arch, true);
     let mut n = 0;
     for b in &a.bands {
-        if d.contains(b) {
-            continue;
-        }
         if !raw.bands.contains_key(b) {
+            if d.contains(b) {
+                continue;
+            }
             return Err(("kept-band-removed".into(), format!("b{b:04} is gone")));
+        }
+        // a version that was to be deleted but is still there (the delete was killed or gave
+        // up) is a remaining version like any other: still listed, so it must still restore
+        let doomed = d.contains(b);
+        if doomed && !(raw.bands[b].has_head() && raw.bands[b].complete()) {
+            continue;
         }
         let dang = raw.dangling_refs(*b);
         if !dang.is_empty() {
-            return Err(("kept-band-has-dangling-reference".into(), format!("b{b:04}: {:?}", &dang[..dang.len().min(3)])));
+            return Err((
+                if doomed { "still-listed-band-to-be-deleted-has-dangling-reference" } else { "kept-band-has-dangling-reference" }.into(),
+                format!("b{b:04}: {:?}", &dang[..dang.len().min(3)]),
+            ));
         }
         if a.complete.contains(b) {
             if let Err(m) = restore_and_compare(arch, Some(*b), &a.world.sources[b], sc, &CmpOpts::default()) {
-                return Err((format!("kept-version:{}", m.class), format!("b{b:04}: {}", m.detail)));
+                return Err((
+                    format!("{}:{}", if doomed { "still-listed-version-to-be-deleted" } else { "kept-version" }, m.class),
+                    format!("b{b:04}: {}", m.detail),
+                ));
             }
             n += 1;
         }
